@@ -21,7 +21,11 @@ type htmlTemplate struct {
 	node          *Node
 	currentAttrs  map[*Node]int
 	nodeCondition map[*Node]bool
+	depth         int // insert/replace 的嵌套深度
 }
+
+// maxFragmentDepth insert/replace 允许的最大嵌套深度 防止组件(间接)引用自身时无限递归耗尽栈
+const maxFragmentDepth = 256
 
 // NewTemplate 构造一个模板实例
 func NewTemplate(m *tplManager, name string, node *Node) *htmlTemplate {
@@ -238,6 +242,10 @@ func (t *htmlTemplate) processTagStart(node *Node, tokenBuf *strings.Builder,
 					return data, errors.Errorf(noSuchTemplate+":%w", name, ErrTplNotFound)
 				}
 				tpl := NewTemplate(t.manager, name, tplNode)
+				if tpl.depth = t.depth + 1; tpl.depth > maxFragmentDepth {
+					return data, errors.Errorf("failed to %v template `%v` at %v: nested too deeply (recursive template?)",
+						cmd, name, attr.ValueStart)
+				}
 				if err := tpl.execute(tplNode, tagContentBuf, data, nil); err != nil {
 					return data, errors.Errorf("failed to %v template `%v` at %v: %w",
 						cmd, name, attr.ValueStart, err)
